@@ -35,14 +35,14 @@ fn expect_completed(out: &DecapOut, pdu: &[u8], pt: u16, l: Lbl, n: usize) -> Op
 
 pub fn run(tier: Tier) -> i32 {
     let rep = Report::new("C16", tier);
-    rep.set_rule("receiver states: closure of the 1-slot receiver system and the 2-slot system to depth 9 (thorough: closure) over provision / new_pdu / reset / decap(46-packet alphabet incl. every rejection reason, malformed and truncated buffers, unfinished trains); in EVERY state the recovery probe runs on restored copies: reset_last_label, provision one buffer (Ok or StorageOverflow accepted), then (i) a valid complete packet with a 6-byte resp. 3-byte label, (ii) a valid 3-fragment PDU on each fragment id in {0, 1, slots (aliasing), 255} with both label kinds, plus three 'twins' of the trains the alphabet leaves unfinished (same fragment id, label, protocol type and total length, other PDU bytes); distinct = probe outcome classes");
+    rep.set_rule("receiver states: closure of the 1-slot receiver system, the 2-slot system to depth 9 (thorough: closure) and a 3-slot system (a table size that is not a power of two) to depth 4 (thorough 6) over provision / new_pdu / reset / decap(46-packet alphabet incl. every rejection reason, malformed and truncated buffers, unfinished trains); in EVERY state the recovery probe runs on restored copies: reset_last_label, provision one buffer of the configured PDU size (Ok or StorageOverflow accepted), then (i) a valid complete packet with a 6-byte resp. 3-byte label, (ii) a valid 3-fragment PDU on each fragment id in {0, 1, slots (aliasing), 255} with both label kinds, plus three 'twins' of the trains the alphabet leaves unfinished (same fragment id, label, protocol type and total length, other PDU bytes); distinct = probe outcome classes");
     rep.assume("histories are drawn from the 46-packet alphabet (structured, not random bytes); C05 covers arbitrary bytes for totality");
     let mgr = mgr_std();
-    for slots in [1usize, 2] {
+    for slots in [1usize, 2, 3] {
         let buffers: Vec<usize> = (0..slots + 3).map(|i| 4 + i).collect();
         let sys = rxmodel::Sys::new(slots, 4, buffers, false);
         let quiet = Report::new("C16-states", tier);
-        let (max_states, max_depth) = if tier.thorough() { (4_000_000, 64) } else if slots == 1 { (400_000, 64) } else { (700_000, 9) };
+        let (max_states, max_depth) = if slots == 3 { (700_000, if tier.thorough() { 6 } else { 4 }) } else if tier.thorough() { (4_000_000, 64) } else if slots == 1 { (400_000, 64) } else { (700_000, 9) };
         let ex = explore(&sys, &Limits { max_states, max_depth }, &quiet, &format!("receiver-{}-slots", slots));
         rep.part(json!({"model": format!("receiver-{}-slots", slots), "states": ex.states.len(), "transitions": ex.transitions, "max_depth": ex.depth, "closure_reached": ex.closed}));
         if !ex.closed {
@@ -65,7 +65,8 @@ pub fn run(tier: Tier) -> i32 {
                     let mut d = st.rx.build(DefaultCrc {}, mgr.clone());
                     d.reset_last_label();
                     acc.transitions += 1;
-                    match catch(|| d.provision_storage(vec![0u8; 16].into_boxed_slice())) {
+                    // a caller provisions storages of the configured PDU size (4 here): that is what must still be accepted
+                    match catch(|| d.provision_storage(vec![0u8; 4].into_boxed_slice())) {
                         Err(p) => {
                             rep.violation(&format!("C16|provision-panic|{}", p.coarse()), ex.depth_of(i) as u64, || (format!("provision_storage panics at {}", p.0), json!({"history": hist()})));
                             None
@@ -80,7 +81,7 @@ pub fn run(tier: Tier) -> i32 {
                                 acc.sout("provision:full", 0);
                                 Some(d)
                             } else {
-                                rep.violation(&format!("C16|provision-refused|{}", k), ex.depth_of(i) as u64, || (format!("provisioning a 16-byte buffer is refused with {}", k), json!({"history": hist(), "state": format!("{:?}", st.rx)})));
+                                rep.violation(&format!("C16|provision-refused|{}", k), ex.depth_of(i) as u64, || (format!("provisioning a buffer of the configured PDU size (4 bytes) is refused with {}", k), json!({"history": hist(), "state": format!("{:?}", st.rx)})));
                                 None
                             }
                         }
